@@ -12,3 +12,5 @@ const hooksAvailable = false
 func runHookDomain(domain string, out *bufio.Writer, rng *rand.Rand, cnt func(q, t int) int) bool {
 	return false
 }
+
+func replayHook(out *bufio.Writer, line string, f []string) bool { return false }
